@@ -45,6 +45,7 @@ SCTP_DATA_UNORDERED = 0x04
 SCTP_MAX_ASSOCIATION_RETRANS = 10
 SCTP_MAX_BURST = 4
 SCTP_MAX_INIT_RETRANS = 8
+SCTP_MAX_SACK_GAPS = 256
 SCTP_RTO_ALPHA = 1 / 8
 SCTP_RTO_BETA = 1 / 4
 SCTP_RTO_INITIAL = 3.0
@@ -1498,8 +1499,12 @@ class RTCSctpTransport(AsyncIOEventEmitter):
                 continue
             if tsn == gap_next:
                 gaps[-1][1] = pos
-            else:
+            elif len(gaps) < SCTP_MAX_SACK_GAPS:
                 gaps.append([pos, pos])
+            else:
+                # the SACK has to fit in one packet, report the blocks
+                # which are closest to the cumulative TSN
+                break
             gap_next = tsn_plus_one(tsn)
 
         sack = SackChunk()
